@@ -178,7 +178,7 @@ theorem settled_answered {cfgs : List Cfg} {y : Sys} (h : AllInv cfgs y) (hset :
 theorem wfop_of_not_input (y : Sys) (o : SOp) (h : isInput o = false) : WFOp y o := by
   cases o <;> first | trivial | cases h
 
-theorem good_along (y0 : Sys) (σ : Nat → SOp) (hq : ∀ t, isInput (σ t) = false)
+theorem good_along (y0 : Sys) (σ : Nat → SOp) (hq : ∀ t, WFOp (sysAt y0 σ t) (σ t))
     (h0 : SInv y0) (hv : SValid y0) (hk : SOk y0) (hc : CfgOk y0)
     (hcf : ∀ t (b : Nat) (B : Node), (sysAt y0 σ t).nodes[b]? = some B → B.s.cfault = none) :
     ∀ t, Good (sysAt y0 σ t) := by
@@ -188,7 +188,7 @@ theorem good_along (y0 : Sys) (σ : Nat → SOp) (hq : ∀ t, isInput (σ t) = f
     | zero => exact ⟨h0, hv, hk, hc⟩
     | succ t ih =>
       obtain ⟨i1, i2, i3, i4⟩ := ih
-      exact ⟨sinv_step _ _ i1, svalid_step _ _ i1 i2, sok_step _ _ i1 i3 (wfop_of_not_input _ _ (hq t)),
+      exact ⟨sinv_step _ _ i1, svalid_step _ _ i1 i2, sok_step _ _ i1 i3 (hq t),
         cfgOk_step _ _ i4⟩
   intro t
   obtain ⟨i1, i2, i3, i4⟩ := key t
